@@ -71,44 +71,36 @@ Ltac np_step :=
   | |- no_panic (if ?x then _ else _) => destruct x
   end.
 
-(* every native except sort *)
-Lemma natives_no_panic : forall n args this, n <> NSort -> no_panic (native_call n args this).
+(* every native, on every receiver, argument list and state *)
+Lemma natives_no_panic : forall n args this, no_panic (native_call n args this).
 Proof.
-  intros n args this Hn. destruct n; try contradiction; unfold native_call; repeat np_step.
+  intros n args this. destruct n; unfold native_call; repeat np_step.
 Qed.
 
-(* sort: the only panic, and exactly when an element cannot be copied *)
-Lemma sort_panic_iff : forall args this s,
-  fst (native_call NSort args this s) = Panic <->
-  exists pa, this = Some pa /\ forallb copyable (contents (hp s) (load (hp s) pa)) = false.
+Theorem methods_total : forall n args this s, fst (native_call n args this s) <> Panic.
+Proof. intros n args this s. apply natives_no_panic. Qed.
+
+(* sort: a runtime error exactly when an element cannot be copied (a function or a native
+   method); nothing is allocated or changed then *)
+Lemma sort_error_iff : forall args this s,
+  (fst (native_call NSort args this s) = Ok NError <->
+   exists pa, this = Some pa /\
+     existsb (fun v => match v with VFn _ | VNative _ _ => true | _ => false end)
+             (contents (hp s) (load (hp s) pa)) = true) /\
+  (fst (native_call NSort args this s) = Ok NError -> snd (native_call NSort args this s) = s).
 Proof.
-  intros args this s. destruct this as [pa|].
+  intros args this s.
+  assert (Hex : forall l, existsb (fun v => match v with VFn _ | VNative _ _ => true | _ => false end) l
+                          = negb (forallb copyable l)).
+  { induction l as [|v l IH]; [reflexivity|]. simpl. rewrite IH. destruct v; reflexivity. }
+  destruct this as [pa|].
   - rewrite native_sort_eq. cbv zeta.
     destruct (forallb copyable (contents (hp s) (load (hp s) pa))) eqn:Hc.
-    + split.
-      * intros H. exfalso.
-        destruct (alloc_all_spec (ideal_sort (contents (hp s) (load (hp s) pa))) s) as (cells & h' & Heq & _).
-        rewrite Heq in H. discriminate.
-      * intros (pa' & Hpa & Hf). inversion Hpa; subst. congruence.
-    + split; [intros _; exists pa; split; [reflexivity|exact Hc]|reflexivity].
-  - split; [discriminate|]. intros (pa & Hpa & _). discriminate.
-Qed.
-
-Theorem methods_total : forall n args this s,
-  fst (native_call n args this s) = Panic ->
-  n = NSort /\ exists pa, this = Some pa /\
-    existsb (fun v => match v with VFn _ | VNative _ _ => true | _ => false end)
-            (contents (hp s) (load (hp s) pa)) = true.
-Proof.
-  intros n args this s H.
-  assert (Hn : n = NSort).
-  { destruct n; try reflexivity; exfalso; revert H; apply natives_no_panic; discriminate. }
-  subst n. split; [reflexivity|]. apply sort_panic_iff in H. destruct H as (pa & Hpa & Hf).
-  exists pa. split; [exact Hpa|].
-  induction (contents (hp s) (load (hp s) pa)) as [|v l IH]; [discriminate|].
-  simpl in *. apply andb_false_iff in Hf. destruct Hf as [Hf|Hf].
-  - destruct v; try discriminate; reflexivity.
-  - rewrite (IH Hf). apply orb_true_r.
+    + destruct (alloc_all_spec (ideal_sort (contents (hp s) (load (hp s) pa))) s) as (cells & h' & Heq & _).
+      rewrite Heq. simpl. split; [split|]; try discriminate.
+      intros (pa' & Hpa & Hf). inversion Hpa; subst. rewrite Hex, Hc in Hf. discriminate.
+    + simpl. split; [split|]; try reflexivity. intros _. exists pa. rewrite Hex, Hc. split; reflexivity.
+  - split; [split|]; try discriminate. intros (pa & Hpa & _). discriminate.
 Qed.
 
 (* ================================================================ neutral values *)
